@@ -7,7 +7,14 @@ priority: int
 facility: int
 
 
+def oneline(message: str) -> str:
+    # One record is one line: request data (percent-decoded selectors, file
+    # names) must not be able to start another one.
+    return message.replace("\r", "\\r").replace("\n", "\\n")
+
+
 def log_file(message: str) -> None:
+    message = oneline(message)
     sys.stdout.buffer.write((message + "\n").encode(errors="surrogateescape"))
     sys.stdout.buffer.flush()
 
@@ -23,7 +30,7 @@ def log_syslog(message: str) -> None:
     # Come on python
     message_bytes = message.encode(errors="surrogateescape")
     message = message_bytes.decode("utf-8", errors="backslashreplace")
-    syslogfunc(priority, message)
+    syslogfunc(priority, oneline(message))
 
 
 def log_none(message: str):
